@@ -89,10 +89,16 @@ def js(s, ctr=None):
         return f"x = 1 + F(L('{s[1]}a'), T('{s[1]}'));"
     if k == "expr":
         return f"y = L('{s[1]}a') + F(L('{s[1]}b'), L('{s[1]}c'));"
+    if k == "exprs":
+        # expression statements of every operator form: each value is discarded, nothing stays behind
+        t = s[1]
+        return "{ " + (f"delete F(L('{t}a'), 0); delete 0; delete x; void L('{t}b'); typeof x; typeof nope; -x; !x; ~x; +x; x, y; (x); [L('{t}c')]; ({{a: 1}}); x ? 1 : 2; x && y; x || y; "
+                f"x++; ++x; x--; --x; new Object; new Object(1); 'str'; 1.5; null; /r/; (function () {{}}); (() => 1); x = y = 1; o.p; o['p']; o.p = 1; o.p += 1; o.p++; delete o.p; delete o['q']; "
+                f"'p' in o; o instanceof Object; x === y; x < y; x + y; x ** 2; x >>> 1; [1, 2][0]; F(1, 2); o.m(); this;") + " }"
     raise ValueError(k)
 
 
-PRELUDE = """var log=[]; var counts={}; var x, y;
+PRELUDE = """var log=[]; var counts={}; var x, y; var o = {p: 1, m: function () { return 1 }};
 function L(t){ log.push(t); return t }
 function C(t,b){ log.push(t); return b }
 function V(v){ log.push('sw'); return v }
@@ -186,6 +192,8 @@ class Ref:
             raise Completion("throw", "E" + s[1])
         elif k == "expr":
             self.log += [s[1] + "a", s[1] + "b", s[1] + "c"]
+        elif k == "exprs":
+            self.log += [s[1] + "a", s[1] + "b", s[1] + "c"]
         else:
             raise ValueError(k)
 
@@ -267,7 +275,7 @@ def source(prog):
 
 # ---- skeleton enumeration ----------------------------------------------------------------------------
 LEAVES = [("log", "s"), ("break", None), ("continue", None), ("return", "r"), ("return", None), ("throw", "t"), ("callthrow", "q"),
-          ("expr", "e"), ("break", "A"), ("continue", "A")]
+          ("expr", "e"), ("break", "A"), ("continue", "A"), ("exprs", "u")]
 
 
 def wrappers(tagger):
